@@ -309,21 +309,26 @@ func checkEncode(s string, chunked bool) {
 			}
 		}
 	}
-	// through the wire codec (mailbox names)
-	var buf bytes.Buffer
-	bw := bufio.NewWriter(&buf)
-	e := imapwire.NewEncoder(bw, imapwire.ConnSideServer)
-	e.Mailbox(s).SP().Atom("END")
-	if err := e.CRLF(); err != nil {
-		viol("wire-mailbox-encode-error", err.Error())
-		return
-	}
-	d := imapwire.NewDecoder(bufio.NewReader(&buf), imapwire.ConnSideClient)
-	var got, end string
-	if !d.ExpectMailbox(&got) || !d.ExpectSP() || !d.ExpectAtom(&end) || end != "END" || !d.ExpectCRLF() {
-		viol("wire-mailbox-decode-error", fmt.Sprint(d.Err()))
-	} else if got != s && !(strings.EqualFold(s, "INBOX") && got == "INBOX") {
-		viol("wire-mailbox-roundtrip", fmt.Sprintf("got %q", got))
+	// through the wire codec (mailbox names), with and without 8-bit quoted strings enabled (the
+	// decoder has no such mode: names are modified UTF-7 on the wire either way)
+	for _, q8 := range []bool{false, true} {
+		run.AddEvals(1)
+		var buf bytes.Buffer
+		bw := bufio.NewWriter(&buf)
+		e := imapwire.NewEncoder(bw, imapwire.ConnSideServer)
+		e.QuotedUTF8 = q8
+		e.Mailbox(s).SP().Atom("END")
+		if err := e.CRLF(); err != nil {
+			viol("wire-mailbox-encode-error", err.Error())
+			return
+		}
+		d := imapwire.NewDecoder(bufio.NewReader(&buf), imapwire.ConnSideClient)
+		var got, end string
+		if !d.ExpectMailbox(&got) || !d.ExpectSP() || !d.ExpectAtom(&end) || end != "END" || !d.ExpectCRLF() {
+			viol("wire-mailbox-decode-error", fmt.Sprintf("QuotedUTF8=%v: %v", q8, d.Err()))
+		} else if got != s && !(strings.EqualFold(s, "INBOX") && got == "INBOX") {
+			viol("wire-mailbox-roundtrip", fmt.Sprintf("QuotedUTF8=%v: got %q", q8, got))
+		}
 	}
 }
 
